@@ -17,6 +17,10 @@
 //	taxgrid  bounded enumeration: rate notation x amount boundary x exemption
 //	flow     ABCI mode: real governance proposals (submit/vote/tally), signed txs through ante,
 //	         batch built by the end-blocker, executed-batch claims by the validators -> burn
+//
+// In all kinds: tax / limit configurations that are executed in a state branch that is never
+// committed (discard.go; in flow: a proposal voted down and a proposal whose last message fails)
+// followed by sends that the committed configuration must decide.
 package c15
 
 import (
@@ -55,6 +59,7 @@ type opRec struct {
 	Limit  string `json:"limit,omitempty"`
 	Period string `json:"period,omitempty"`
 	Exempt string `json:"exempt,omitempty"`
+	How    string `json:"how,omitempty"`
 }
 
 // runner drives one history against the real app and the model.
@@ -161,6 +166,7 @@ func (x *runner) setTax(t *token, num, den *big.Int, rateStr string, exempt map[
 	}
 	x.rec.Count("set_tax", 1)
 	t.tax = taxCfg{set: true, num: num, den: den, rateStr: rateStr, exempt: exempt}
+	t.decoyTax = nil
 }
 
 func (x *runner) setLimit(t *token, limit *big.Int, period int32, exempt map[int]bool) {
@@ -174,6 +180,7 @@ func (x *runner) setLimit(t *token, limit *big.Int, period int32, exempt map[int
 	}
 	x.rec.Count("set_limit", 1)
 	t.lim = limCfg{set: true, limit: limit, period: period, exempt: exempt}
+	t.decoyLim = nil
 	// assumption (see Assumptions): the running window carries over as (start, total); the
 	// statement-level log restarts from that carried total
 	t.log = nil
@@ -268,6 +275,9 @@ func (x *runner) send(u int, t *token, a *big.Int) {
 		return
 	}
 	v := x.m.predictSend(u, t.idx, a, x.h)
+	// coverage only: would this send come out differently under a configuration that was executed
+	// but never committed?
+	leakTax, leakLim := x.decoyDiffers(u, t, a, v)
 	if a.Sign() > 0 {
 		x.probeKeeper(o, u, t, a, before)
 	}
@@ -285,6 +295,15 @@ func (x *runner) send(u int, t *token, a *big.Int) {
 	wit := map[string]any{"expected": v, "before": before, "after": after}
 	if err != nil {
 		wit["error"] = firstLine(err.Error())
+	}
+	if t.decoyTax != nil || t.decoyLim != nil {
+		wit["uncommitted_config_executed_earlier"] = x.decoyCfg(t)
+	}
+	if leakTax {
+		x.rec.Count("sends_after_discarded_tax_config", 1)
+	}
+	if leakLim {
+		x.rec.Count("sends_after_discarded_limit_config", 1)
 	}
 
 	if err != nil {
